@@ -41,6 +41,10 @@ type fileReport struct {
 var lockMethods = map[string]bool{"Lock": true, "Unlock": true, "RLock": true, "RUnlock": true, "TryLock": true, "TryRLock": true, "Do": true}
 
 type instr struct {
+	// captured: variables of the enclosing method that the function literal being instrumented
+	// refers to (state shared between invocations of the closure)
+	captured map[*ast.Object]bool
+	fd       *ast.FuncDecl
 	fset    *token.FileSet
 	base    string
 	recv    string
@@ -81,6 +85,7 @@ type access struct {
 	recv  bool
 	path  string
 	write bool
+	capt  string // name of a captured local variable (its address identifies the location)
 }
 
 // collect gathers the accesses of an expression.
@@ -108,14 +113,18 @@ func (in *instr) collect(e ast.Node, write bool, out *[]access) {
 		return
 	case *ast.SelectorExpr:
 		if p, ok := in.chain(x); ok {
-			*out = append(*out, access{true, p, write})
+			*out = append(*out, access{true, p, write, ""})
 			return
 		}
 		in.collect(x.X, false, out)
 		return
 	case *ast.Ident:
+		if in.captured != nil && x.Obj != nil && in.captured[x.Obj] {
+			*out = append(*out, access{false, "captured." + x.Name, write, x.Name})
+			return
+		}
 		if in.pkgVars[x.Name] {
-			*out = append(*out, access{false, "pkg." + x.Name, write})
+			*out = append(*out, access{false, "pkg." + x.Name, write, ""})
 		}
 		return
 	case *ast.IndexExpr:
@@ -237,6 +246,9 @@ func (in *instr) probes(s ast.Stmt) []ast.Stmt {
 		if a.recv {
 			obj = ast.NewIdent(in.recv)
 		}
+		if a.capt != "" {
+			obj = &ast.UnaryExpr{Op: token.AND, X: ast.NewIdent(a.capt)}
+		}
 		w := "false"
 		if a.write {
 			w = "true"
@@ -324,7 +336,27 @@ func (in *instr) funcLits(n ast.Node) {
 	}
 	ast.Inspect(n, func(m ast.Node) bool {
 		if fl, ok := m.(*ast.FuncLit); ok {
+			saved := in.captured
+			capt := map[*ast.Object]bool{}
+			for k := range saved {
+				capt[k] = true
+			}
+			if in.fd != nil {
+				ast.Inspect(fl.Body, func(n ast.Node) bool {
+					id, ok := n.(*ast.Ident)
+					if !ok || id.Obj == nil || id.Obj.Kind != ast.Var || id.Name == "_" || id.Name == in.recv {
+						return true
+					}
+					pos := id.Obj.Pos()
+					if pos >= in.fd.Pos() && pos < in.fd.End() && (pos < fl.Pos() || pos >= fl.End()) {
+						capt[id.Obj] = true
+					}
+					return true
+				})
+			}
+			in.captured = capt
 			fl.Body.List = in.list(fl.Body.List)
+			in.captured = saved
 			return false
 		}
 		return true
@@ -337,7 +369,7 @@ func main() {
 	var reports []fileReport
 	for _, path := range flag.Args() {
 		fset := token.NewFileSet()
-		f, err := parser.ParseFile(fset, path, nil, parser.SkipObjectResolution)
+		f, err := parser.ParseFile(fset, path, nil, 0) // with object resolution: captured variables are recognised through it
 		if err != nil {
 			fatal("%v", err)
 		}
@@ -376,6 +408,8 @@ func main() {
 			if len(fd.Recv.List[0].Names) > 0 {
 				in.recv = fd.Recv.List[0].Names[0].Name
 			}
+			in.fd = fd
+			in.captured = nil
 			fd.Body.List = in.list(fd.Body.List)
 		}
 		// add the probe import as a separate declaration right after the existing imports
